@@ -315,11 +315,17 @@ def subLoop (lines : List Str) (isTranslation : Bool) : Nat → Str → Nat → 
       (lineAt lines (lineIndex + 1)).bind fun line' =>
         subLoop lines isTranslation f qualifier (lineIndex + 1) line'
 
-/-- `if len(attributeSplit) < 2 { "" } else { strings.Trim(strings.TrimSpace(attributeSplit[1]), "\"") }`
+/-- f2612ce: `if len(v) >= 2 && HasPrefix(v, "\"") && HasSuffix(v, "\"") { v[1 : len(v)-1] } else { strings.Trim(v, "\"") }`:
+of a quoted value only the enclosing pair is markup, quotation marks inside belong to the value -/
+def unquoteValue (v : Str) : Str :=
+  if v.length ≥ 2 ∧ hasPrefix v c!"\"" = true ∧ hasSuffix v c!"\"" = true then (v.drop 1).dropLast
+  else trim v c!"\""
+
+/-- `if len(attributeSplit) < 2 { "" } else { unquote(strings.TrimSpace(attributeSplit[1])) }`
 (`SplitN(…, 2)` gives one or two fields) -/
 def attributeValueOf (attributeSplit : List Str) : Str :=
   match attributeSplit with
-  | [_, v] => trim (trimSpace v) c!"\""
+  | [_, v] => unquoteValue (trimSpace v)
   | _ => []
 
 /-- the qualifier loop (lines 534-578): state = (Attributes, lineIndex, line); returns the map and
